@@ -1196,6 +1196,98 @@ def corr_dispatch(ctx):
     ctx.ob(ob2, not side_bad, "correspondence", "; ".join(side_bad[:4]))
 
 
+def search_basis_keywords(ctx):
+    """EVERY keyword combination of pauli_basis / comp_basis_to_pauli / pauli_to_comp_basis
+    (sparse x vectorize x normalize x order x pauli_order x nqubits): the dense result is the documented
+    matrix (SPEC props.C17.Ref) and the sparse pair (elements, indexes) densifies, row by row, to exactly
+    the dense matrix of the same call."""
+    import itertools as it
+    import math
+
+    from props.C17 import ALL_PO, Ref
+    from qibo.quantum_info import basis
+
+    rng = ctx.rng
+    name = "C17_search_basis_keywords"
+    HDR = "import numpy as np\nfrom qibo import set_backend\nset_backend('numpy')\nfrom qibo.quantum_info import basis\n"
+    DENS = ("def dens(pair, ncols):\n    el, ix = np.asarray(pair[0]), np.real(np.asarray(pair[1])).astype(int)\n    D = np.zeros((el.shape[0], ncols), dtype=complex)\n"
+            "    for r in range(el.shape[0]):\n        D[r, ix[r]] = el[r]\n    return D\n")
+    bad = 0
+
+    def dens(pair, ncols):
+        # pauli_to_comp_basis returns its indexes through backend.cast, i.e. as complex numbers
+        el, ix = np.asarray(pair[0]), np.real(np.asarray(pair[1])).astype(int)
+        D = np.zeros((el.shape[0], ncols), dtype=complex)
+        for r in range(el.shape[0]):
+            D[r, ix[r]] = el[r]
+        return D
+
+    def eq(a, b, exact):
+        a, b = np.asarray(a), np.asarray(b)
+        return a.shape == b.shape and (np.array_equal(a, b) if exact else bool(np.allclose(a, b, atol=1e-12, rtol=0)))
+
+    def check(ok, key, what, py):
+        nonlocal bad
+        ctx.case()
+        ctx.stat("basis_keywords:" + key.split(":")[1])
+        if not ok:
+            bad += 1
+            ctx.fail(key, what, HDR + DENS + py, broken=[name])
+
+    for n in (1, 2, 3) if ctx.thorough else (1, 2):
+        d = 2**n
+        pos = ALL_PO if n == 1 else ["IXYZ"] + rng.sample(ALL_PO, 3 if n == 2 else 1)
+        for po, normalize, order in it.product(pos, (False, True), ("row", "column", "system")):
+            s = math.sqrt(d) if normalize else 1.0
+            rows = np.array([Ref.vec(P, order) / s for P in Ref.paulis(n, po)])  # row k = vec(P_k)/s
+            exact = not normalize
+            kw = f"normalize={normalize}, order={order!r}, pauli_order={po!r}"
+            ctx.case(("basis-kw", n, po, normalize, order))
+            for fname, exp in (("comp_basis_to_pauli", rows.conj()), ("pauli_to_comp_basis", rows.T)):
+                f = getattr(basis, fname)
+                try:
+                    dense = np.asarray(f(n, normalize=normalize, sparse=False, order=order, pauli_order=po))
+                    sp = dens(f(n, normalize=normalize, sparse=True, order=order, pauli_order=po), d * d)
+                    okd, oks = eq(dense, exp, exact), eq(sp, dense, exact)
+                except Exception:  # noqa: BLE001
+                    okd = oks = False
+                check(okd, f"basis-keywords:{fname}:dense", f"{fname}({n}, {kw}) is not the documented change of basis",
+                      f"out = basis.{fname}({n}, {kw})\nexp = np.array({exp.tolist()!r})\nassert np.allclose(out, exp, atol=1e-12, rtol=0)\n")
+                check(oks, f"basis-keywords:{fname}:sparse", f"the sparse pair of {fname}({n}, sparse=True, {kw}) does not densify to the dense matrix of the same call",
+                      f"D = dens(basis.{fname}({n}, sparse=True, {kw}), {d * d})\nM = basis.{fname}({n}, sparse=False, {kw})\nassert D.shape == M.shape and np.allclose(D, M, atol=1e-12, rtol=0), np.abs(D - M).max()\n")
+            # pauli_basis: vectorize x sparse
+            try:
+                dense = np.asarray(basis.pauli_basis(n, normalize=normalize, vectorize=True, sparse=False, order=order, pauli_order=po))
+                sp = dens(basis.pauli_basis(n, normalize=normalize, vectorize=True, sparse=True, order=order, pauli_order=po), d * d)
+                okd, oks = eq(dense, rows, exact), eq(sp, dense, exact)
+            except Exception:  # noqa: BLE001
+                okd = oks = False
+            check(okd, "basis-keywords:pauli_basis:dense", f"pauli_basis({n}, vectorize=True, {kw}) rows are not the vectorised Pauli strings",
+                  f"out = basis.pauli_basis({n}, vectorize=True, {kw})\nexp = np.array({rows.tolist()!r})\nassert np.allclose(out, exp, atol=1e-12, rtol=0)\n")
+            check(oks, "basis-keywords:pauli_basis:sparse", f"the sparse pair of pauli_basis({n}, vectorize=True, sparse=True, {kw}) does not densify to the dense result",
+                  f"D = dens(basis.pauli_basis({n}, vectorize=True, sparse=True, {kw}), {d * d})\nM = basis.pauli_basis({n}, vectorize=True, {kw})\nassert np.allclose(D, M, atol=1e-12, rtol=0)\n")
+            if order == "row":  # vectorize=False: order is irrelevant (None or given)
+                full = np.array(Ref.paulis(n, po)) / s
+                for o in (None, rng.choice(("row", "column", "system"))):
+                    try:
+                        out = np.asarray(basis.pauli_basis(n, normalize=normalize, vectorize=False, sparse=False, order=o, pauli_order=po))
+                        ok = eq(out, full, exact)
+                    except Exception:  # noqa: BLE001
+                        ok = False
+                    check(ok, "basis-keywords:pauli_basis:unvectorized", f"pauli_basis({n}, vectorize=False, normalize={normalize}, order={o!r}, pauli_order={po!r}) is not the list of Pauli strings",
+                          f"out = basis.pauli_basis({n}, normalize={normalize}, vectorize=False, order={o!r}, pauli_order={po!r})\nexp = np.array({full.tolist()!r})\nassert np.allclose(out, exp, atol=1e-12, rtol=0)\n")
+                try:
+                    basis.pauli_basis(n, normalize=normalize, vectorize=False, sparse=True, pauli_order=po)
+                    ok = False
+                except NotImplementedError:
+                    ok = True
+                except Exception:  # noqa: BLE001
+                    ok = False
+                check(ok, "basis-keywords:pauli_basis:sparse-unvectorized", "pauli_basis(vectorize=False, sparse=True) must raise NotImplementedError as documented",
+                      f"try:\n    basis.pauli_basis({n}, vectorize=False, sparse=True, pauli_order={po!r})\nexcept NotImplementedError:\n    raise SystemExit(0)\nraise SystemExit(1)\n")
+    ctx.ob(name, bad == 0, "search", f"{bad} failing inputs" if bad else "")
+
+
 def run_suites(ctx):
     import logging
 
@@ -1213,6 +1305,7 @@ def run_suites(ctx):
         observe_dimension_check(ctx)
         search_dilation(ctx)
         corr_dispatch(ctx)
+        search_basis_keywords(ctx)
     finally:
         logging.disable(prev)
     ctx.notes.append("quantum networks: exact Gaussian-integer correspondence of lean/QV/Model/Networks.lean with QuantumNetwork / "
